@@ -114,18 +114,22 @@ func (ps Params) Declarations() string {
 	return result.String()
 }
 
+// keepUserNames registers the user-chosen names of ps in paramDeduper.
+// It must run for inputs AND outputs (they share one scope) before any name is generated,
+// so that generated names can steer clear of all of them.
+func (ps Params) keepUserNames(paramDeduper map[string]int) {
+	for _, p := range ps {
+		if p.Name != "" && p.Name != "_" {
+			p.Name = getSafeParamName(paramDeduper, p.Name, false)
+		}
+	}
+}
+
 func (ps Params) ensureNames(paramDeduper map[string]int, isOutput bool) {
 	// paramName == the unnamed parameter paramName to use.
 	prefix := "arg"
 	if isOutput {
 		prefix = "ret"
-	}
-	// To better preserve a customer's naming in case of them colliding with our own,
-	// process the named variables first:
-	for _, p := range ps {
-		if p.Name != "" && p.Name != "_" {
-			p.Name = getSafeParamName(paramDeduper, p.Name, false)
-		}
 	}
 
 	for i, p := range ps {
@@ -157,14 +161,20 @@ func (p Param) Declaration() string {
 }
 
 // getSafeParamName returns a "safe" param name.
-// note: I'm pretty sure this is technically only safe when the already defined params
-// are processed first which is exactly what ensureNames does.
+// note: this is only safe when the already defined params are registered first,
+// which is exactly what ensureParamNames does.
 func getSafeParamName(paramDeduper map[string]int, paramName string, alwaysNumber bool) string {
 	v, ok := paramDeduper[paramName]
 	result := paramName
 	if ok || alwaysNumber {
-		result += strconv.FormatInt(int64(v), 10)
-		v++
+		// skip numbered names that are already taken, e.g. by a user parameter called "arg0".
+		for {
+			result = paramName + strconv.FormatInt(int64(v), 10)
+			v++
+			if _, taken := paramDeduper[result]; !taken {
+				break
+			}
+		}
 	}
 	// else don't modify the intended paramName.
 	// ensure the paramName is in the map:
